@@ -1,0 +1,21 @@
+//go:build verif
+
+// Contracts for the deductive checker in /verif (comment-only; compiled only with -tags verif).
+package index
+
+// Add appends to the pending batch only a hash that is neither in the file nor among the hashes already pending, and what it
+// appends is a private copy (a fresh buffer holding the same 16 bytes); the hash it is given ends up in the file or in the batch.
+// (That the older entries of the batch are left as they were is not stated as a postcondition: see /verif/DESIGN.md, C20.)
+//@ func (*HashSet).Add
+//@   props C20
+//@   requires len(hash) == 16 && s.r != nil && s.batchSize >= 1
+//@   requires forall(i, 0, len(s.batch), len(s.batch[i]) == 16 && !member2(fileSet, 0, sid(s.batch[i])))
+//@   requires forall2(i, j, 0 <= i && i < j && j < len(s.batch) ==> sid(s.batch[i]) != sid(s.batch[j]))
+//@   requires forall(i, 0, len(s.batch), reg(s.batch[i]) != reg(hash))
+//@   modifies s.*, s.batch[:], fileSet
+//@   ensures [C20] result == nil ==> member2(fileSet, 0, sid(old(hash))) || exists(i, 0, len(s.batch), sid(s.batch[i]) == sid(old(hash)))
+//@   ensures [C20] result == nil && len(s.batch) > old(len(s.batch)) ==> !member2(old(fileSet), 0, sid(old(hash))) && forall(i, 0, old(len(s.batch)), sid(old(s.batch[i])) != sid(old(hash)))
+//@   ensures [C20] result == nil && len(s.batch) > old(len(s.batch)) ==> len(s.batch) == old(len(s.batch)) + 1 && fresh(s.batch[len(s.batch) - 1]) && sid(s.batch[len(s.batch) - 1]) == sid(old(hash))
+//@   loop 1 invariant s.batch == old(s.batch) && iter <= len(s.batch) && forall(i, 0, iter, sid(s.batch[i]) != sid(hash))
+//@   loop 1 decreases len(s.batch) - iter
+//@   loop 1 returns [C20] result == nil && exists(i, 0, len(s.batch), sid(s.batch[i]) == sid(hash))
